@@ -106,6 +106,12 @@ func carriers(n int64) []gen.Named {
 		add("float64", float64(n))
 		add("defined type on float64", gen.NamedF64(n))
 	}
+	// the other carriers of a number the library knows: a decimal.Decimal and an implementer of Number (the latter
+	// where a float64 holds n exactly)
+	add("decimal.Decimal", decimal.NewFromInt(n))
+	if exact64 && n > -1000000 && n < 1000000 {
+		add("Number implementer", gen.ValNumber{N: float64(n)})
+	}
 	// defined types (type Level int) are Go numeric types as well
 	add("defined type on int", gen.KeyInt(n))
 	add("defined type on int64", gen.NamedI64(n))
